@@ -45,6 +45,7 @@ To use this backend you must activate the `slurm` backend.
 
 import logging
 import os.path
+import shlex
 from collections import defaultdict
 
 import attrs
@@ -299,7 +300,7 @@ class SlurmOps:
             out.append(OPTION_STR.format("--output=", "/dev/null"))
 
         out.append("")
-        out.append("cd {}".format(target.working_dir))
+        out.append("cd {}".format(shlex.quote(target.working_dir)))
         out.append("export GWF_JOBID=$SLURM_JOBID")
         out.append('export GWF_TARGET_NAME="{}"'.format(target.name))
         out.append("set -e")
